@@ -4,7 +4,7 @@
     Stress cases (several scheduler threads, no recording): the model says that with two or more
     threads the unsynchronised node set can lose an operation (defect tag raised by the two-step
     model on the witness schedule); the property demands a clean run. *)
-From OCV Require Export Base.Prelude Misc.Monitor Misc.MonitorOracle.
+From OCV Require Export Base.Prelude Misc.Monitor Misc.MonitorOracle Misc.MonitorTrace.
 From Coq Require Import String.
 Open Scope string_scope.
 
@@ -55,6 +55,7 @@ Definition judge (c : mcase) : verdict :=
     {| v_corr := corr_c22 (mc_progs c) (mc_evs c);
        v_prop := ok_c22 (mc_progs c) (mc_evs c) (mc_results c) (mc_nodes_left c) (mc_first_then c);
        v_tags := ["trace"]
+                 ++ (if wf_bodies (progs0 (mc_progs c)) then ["wf"] else ["malformed"])
                  ++ (if Nat.leb 1 (o_preempts k) then ["preempted"] else [])
                  ++ (if Nat.leb 2 (o_preempts k) then ["preempted_twice"] else [])
                  ++ (if has_ev (fun e => match e with MChange _ _ CSyscall _ _ => true | _ => false end) (mc_evs c) then ["syscall"] else [])
